@@ -14,11 +14,29 @@ TRUSTED = ["harness/workers/c19_worker.py", "harness/iso.py (invariant digest, e
 HERE = os.path.dirname(os.path.dirname(os.path.abspath(__file__)))
 
 
-def worker(seed, nlang, hashseed, unrelated):
+def make_plan(seed, nlang):
+    """the inputs are generated once, in one interpreter, and handed to every worker (see workers/c19_worker.py: make_plan)"""
+    import tempfile
+    env = dict(os.environ)
+    env["PYTHONHASHSEED"] = "0"
+    env["TRANSFORGE_VERIF"] = "1"
+    p = subprocess.run([sys.executable, os.path.join(HERE, "workers", "c19_worker.py"), "plan", str(seed), str(nlang)],
+        stdout=subprocess.PIPE, stderr=subprocess.PIPE, text=True, env=env, timeout=1200)
+    if p.returncode != 0:
+        raise RuntimeError("plan worker failed: " + p.stderr[-800:])
+    d = os.path.join(os.path.dirname(HERE), "replays", "C19")
+    os.makedirs(d, exist_ok=True)
+    fd, path = tempfile.mkstemp(prefix="c19plan_", suffix=".json", dir=d)
+    with os.fdopen(fd, "w") as f:
+        f.write(p.stdout.strip().splitlines()[-1])
+    return path
+
+
+def worker(planfile, seed, hashseed, unrelated):
     env = dict(os.environ)
     env["PYTHONHASHSEED"] = str(hashseed)
     env["TRANSFORGE_VERIF"] = "1"
-    p = subprocess.run([sys.executable, os.path.join(HERE, "workers", "c19_worker.py"), str(seed), str(nlang), "1" if unrelated else "0"],
+    p = subprocess.run([sys.executable, os.path.join(HERE, "workers", "c19_worker.py"), "run", planfile, "1" if unrelated else "0", str(seed)],
         stdout=subprocess.PIPE, stderr=subprocess.PIPE, text=True, env=env, timeout=1200)
     if p.returncode != 0:
         raise RuntimeError("worker failed: " + p.stderr[-800:])
@@ -39,8 +57,12 @@ def run(ctx):
         if ctx.tier == "thorough":
             configs += [("4", False), ("random", True), ("5", True)]
         from concurrent.futures import ThreadPoolExecutor
-        with ThreadPoolExecutor(max_workers=8) as ex:
-            runs = list(ex.map(lambda c: worker(seed, nlang, c[0], c[1]), configs))
+        planfile = make_plan(seed, nlang)
+        try:
+            with ThreadPoolExecutor(max_workers=8) as ex:
+                runs = list(ex.map(lambda c: worker(planfile, seed, c[0], c[1]), configs))
+        finally:
+            os.unlink(planfile)
         base = runs[0]
         for i, item in enumerate(base):
             ctx.evaluations += 1
@@ -54,11 +76,14 @@ def run(ctx):
                 if d == item["digest"] and r is not base and not d.startswith("E:") and not exact_same(item, r[i]):
                     d += "!not-isomorphic"     # equal colour-refinement digests, yet no isomorphism exists
                 digests[f"hashseed={hs}{',after-unrelated' if unrel else ''}"] = d
-            # the literal text with the running numbers removed must agree in every run, printed order included
-            same_history = {v for k, v in digests.items() if "after" not in k}
-            # the after-unrelated runs list the tool applications in reverse: when the workflow is rejected, WHICH error comes
-            # first may follow that order (C12, known finding D26); there is no graph to compare then
-            across = {("E" if v.startswith("E:") else v) for v in digests.values()}
+            # the literal text with the running numbers removed must agree in every run, printed order included. When NO run yields a graph
+            # (every run is refused, by whatever error) there is nothing the property compares: WHICH typing error is raised when several
+            # requirements are violated follows the iteration order of constraint sets and the listing order (known findings D14/D20 of C18,
+            # D26 of C12; thorough seed 113: a language refused with ConstraintViolation in some interpreters and TypeMismatch in others)
+            def collapse(v):
+                return "E" if v.startswith("E:") or v.startswith("rejected:") else v
+            same_history = {collapse(v) for k, v in digests.items() if "after" not in k}
+            across = {collapse(v) for v in digests.values()}
             if len(same_history) > 1 or len(across) > 1:
                 ctx.fail(f"{item['what']}: canonical graph differs between runs: {digests}",
                     {"check": "nondeterminism", "kind": kind, "only_after_unrelated": len(same_history) == 1},
@@ -69,11 +94,15 @@ def run(ctx):
 
 def replay(ctx, payload):
     inp = payload["input"]
-    runs = [worker(inp["seed"], inp["nlang"], hs, un) for hs, un in (("0", False), ("1", False), ("random", False), ("3", True))]
+    planfile = make_plan(inp["seed"], inp["nlang"])
+    try:
+        runs = [worker(planfile, inp["seed"], hs, un) for hs, un in (("0", False), ("1", False), ("random", False), ("3", True))]
+    finally:
+        os.unlink(planfile)
     ok = True
     for i, item in enumerate(runs[0]):
         if item["what"] == inp["what"]:
             ds = [r[i]["digest"] for r in runs]
             print(item["what"], ds)
-            ok = len(set(ds)) == 1
+            ok = len({("E" if d.startswith("E:") or d.startswith("rejected:") else d) for d in ds}) == 1
     return ok
